@@ -107,6 +107,11 @@ impl BytesMut {
         ensures r == (old(self)@[0] as u16) * 256 + old(self)@[1] as u16, final(self)@ == old(self)@.skip(2),
     { unimplemented!() }
     #[verifier::external_body]
+    pub fn advance(&mut self, n: usize)
+        requires n <= old(self)@.len(),     // bytes::Buf::advance panics beyond the end
+        ensures final(self)@ == old(self)@.skip(n as int),
+    { unimplemented!() }
+    #[verifier::external_body]
     pub fn is_empty(&self) -> (r: bool) ensures r == (self@.len() == 0) { unimplemented!() }
     #[verifier::external_body]
     pub fn split(&mut self) -> (r: BytesMut) ensures r@ == old(self)@, final(self)@ == Seq::<u8>::empty() { unimplemented!() }
@@ -164,10 +169,10 @@ impl FrameDecoder {
     ensures
         // no precondition on `src`: every call of a bytes accessor must be justified by a check in the code   [C15.frame.total] any frame body -- short, unknown type or data offset, undecodable -- yields Ok or Err, never a panic
         old(src)@.len() < 4 ==> r is Err,                                                   // [C15.frame.short] a body shorter than the rest of the header is an error
-        old(src)@.len() >= 4 && (old(src)@[1] != FRAME_TYPE_AMQP || old(src)@[0] != 2) ==> r is Err,   // [C15.frame.type-doff] unknown frame type or data offset is an error
-        r is Ok ==> r->Ok_0 is Some && r->Ok_0->Some_0.channel == (old(src)@[2] as u16) * 256 + old(src)@[3] as u16,   // [C06.decode.channel]
-        r is Ok && old(src)@.len() == 4 ==> r->Ok_0->Some_0.body is Empty,                  // [C17.decode.empty-frame] a bare header is the empty (heartbeat) frame
-        r is Ok && old(src)@.len() > 4 && r->Ok_0->Some_0.body is Transfer ==> ({
+        old(src)@.len() >= 4 && (old(src)@[1] != FRAME_TYPE_AMQP || old(src)@[0] < 2) ==> r is Err,   // [C15.frame.type-doff] unknown frame type or malformed data offset (< 2) is an error (doff > 2: any outcome, but never a panic)
+        r is Ok && old(src)@[0] == 2 ==> r->Ok_0 is Some && r->Ok_0->Some_0.channel == (old(src)@[2] as u16) * 256 + old(src)@[3] as u16,   // [C06.decode.channel]
+        r is Ok && old(src)@.len() == 4 && old(src)@[0] == 2 ==> r->Ok_0 is Some && r->Ok_0->Some_0.body is Empty,                  // [C17.decode.empty-frame] a bare header is the empty (heartbeat) frame
+        r is Ok && old(src)@.len() > 4 && old(src)@[0] == 2 && r->Ok_0 is Some && r->Ok_0->Some_0.body is Transfer ==> ({
             let body = old(src)@.skip(4);
             &&& perf_of(body) is Transfer
             &&& r->Ok_0->Some_0.body->Transfer_performative == perf_of(body)->Transfer_0
@@ -206,8 +211,8 @@ impl FrameCodec {
 //@@ spec
     ensures
         old(src)@.len() < 4 ==> r is Err,                                                   // [C15.sasl-frame.short] [C19.sasl-frame.short] a SASL frame body shorter than the rest of the header is an error, not a panic (pre-authentication path)
-        old(src)@.len() >= 4 && (old(src)@[1] != FRAME_TYPE_SASL || old(src)@[0] != 2) ==> r is Err,   // [C19.sasl-frame.type] an AMQP frame (or any other type / data offset) during the SASL exchange is refused [C15.sasl-frame.type]
-        r is Ok ==> r->Ok_0 == Some(sasl_of(old(src)@.skip(4))),
+        old(src)@.len() >= 4 && (old(src)@[1] != FRAME_TYPE_SASL || old(src)@[0] < 2) ==> r is Err,   // [C19.sasl-frame.type] an AMQP frame (or any other type / data offset) during the SASL exchange is refused [C15.sasl-frame.type]
+        r is Ok && old(src)@[0] == 2 ==> r->Ok_0 == Some(sasl_of(old(src)@.skip(4))),
 //@@ entry
         let ghost s0 = src@;
         proof {
